@@ -61,6 +61,8 @@ type dvSim struct {
 	heldPfx  []func()
 	nExpire  int
 	nLateRib int
+	losePfx  int // number of upcoming prefix-table fetches to lose (answered with a timeout)
+	nLostPfx int
 }
 
 // face returns the id of the face at a towards b (changes when the link is re-created).
@@ -186,6 +188,18 @@ func (s *dvSim) onExpress(from *dvNode, x simeng.Expressed) {
 	}
 	if owner == nil || !owner.alive || !from.alive || !s.connected(from.idx, owner.idx) {
 		return // unreachable: the Interest is lost (a real engine would time out seconds later)
+	}
+	s.mu.Lock()
+	lose := s.losePfx > 0
+	if lose {
+		s.losePfx--
+		s.nLostPfx++
+	}
+	s.mu.Unlock()
+	if lose {
+		// this fetch is lost in the network: the engine reports a timeout, the router retries
+		go x.Callback(ndn.ExpressCallbackArgs{Result: ndn.InterestResultTimeout})
+		return
 	}
 	go func() {
 		in, _, err := spec.Spec{}.ReadInterest(enc.NewWireReader(x.Interest.Wire))
